@@ -17,7 +17,11 @@ if [ -n "$DEMO" ]; then
   echo "demo exit=$?"
 fi
 for p in "$@"; do
-  /verif/bin/govc check --prop $p --tier quick --no-evidence | grep -v "^FAILED\|^       " | tail -6
+  /verif/bin/govc check --prop $p --tier quick --no-evidence | grep -v "^FAILED\|^       " > /root/try_seed.out
+  # violations of obligations that still exist first, then (at most 3 of) those reported because an obligation is no longer generated
+  grep "^VIOLATION" /root/try_seed.out | grep -v "missing\|engine" | head -6
+  grep "^VIOLATION" /root/try_seed.out | grep "missing\|engine" | head -3
+  grep -v "^VIOLATION" /root/try_seed.out | tail -3
 done
 git -C /repo checkout -q -- .
 git -C /repo status --short
